@@ -688,16 +688,22 @@ class NestedFrame(pd.DataFrame):
             if isinstance(subset, str):
                 subset = [subset]
 
+            resolved_subset = []
             for col in subset:
+                # parse the path like every other operation does (backticks protect parts of a path)
+                components = self._parse_hierarchical_components(col)
                 # Without a ".", always assume base layer
-                if "." not in col:
+                if len(components) < 2:
                     subset_target.append("base")
+                    resolved_subset.append(col)
                 else:
-                    layer, col = col.split(".")
+                    layer = components[0]
                     if layer in nested_cols:
                         subset_target.append(layer)
+                        resolved_subset.append(f"{layer}.{'.'.join(components[1:])}")
                     else:
                         raise ValueError(f"layer '{layer}' not found in the base columns")
+            subset = resolved_subset
 
             # Check for 1 target
             subset_target = np.unique(subset_target)
@@ -837,7 +843,7 @@ class NestedFrame(pd.DataFrame):
         if ignore_index:
             raise ValueError("ignore_index is not supported for nested columns")
         if subset is not None:
-            subset = [col.split(".")[-1] for col in subset]
+            subset = [col[len(target) + 1 :] for col in subset]
         target_flat = self[target].nest.to_flat()
         target_flat = target_flat.set_index(self[target].array.get_list_index())
         if inplace:
